@@ -10,6 +10,13 @@ Steps of a run
   4. type stream  : every mechanism/cache type the loader registers must pass the file validation
   5. values stream: value shapes per leaf type from file and environment; one text per leaf where the file / only the
                     defaults / nothing defines the leaf (environment wins, file = environment, Lean load + decode)
+  5c. dialect     : texts whose reading differs between YAML dialects / decoders (yes no on off y n, ~, null, 0o17, 017,
+                    0x1F, 1_000, 1e3, .inf, .NaN, dates, <<, =, 1:30, and their quoted forms): what the real ValidateConfig,
+                    the real file loader and the real typing of variables make of each text, against each other and against
+                    the Lean reading model (c20_validator_reads_like_loader); every text UNQUOTED in the file at string
+                    options of the real Configuration (typed fields, header / cookie templates, subject, auth_class, realm,
+                    key store password) through the real NewConfiguration incl. the schema validation vs the same text
+                    from a variable; the typed stream plants such strings unquoted into its files
   6. history stream
 """
 import collections
@@ -26,6 +33,10 @@ import vlib
 PID = "C20"
 KNOWN = "C20-file-validated-alone"
 KNOWN_RETYPED = "C20-env-value-retyped"
+# genuine defect with a small repair (fixes/C20-3.patch, not yet in /repo): ValidateConfig judges the file BEFORE `${var}`
+# references are resolved. Recognised by its exact signature (unsubstituted_validation) only while the source of
+# ValidateConfig does not call envsubst; counted, listed in design/C20.md; a violation once the patch is applied
+PENDING_SUBST = "C20-validator-before-substitution"
 KNOWN_NIL_ELEM = "C20-nil-list-element"      # proposed in design/C20.md (counted; printed once it is in known_findings.json)
 EXTRACTOR = os.path.join(vlib.VERIF, "extract", "config_schema", "extract.py")
 GEN_FILE = os.path.join(vlib.LEAN, "HeimdallModel", "Gen", "ConfigSchema.lean")
@@ -238,6 +249,11 @@ def l2_eval(exe, plans):
             ids.append(len(cases))
             cases.append(case)
             v = dict(case, op="validate", env=[], orders=[], rep=1)
+            if "file_quoted" in case:
+                # the file holds unquoted strings: "the file part alone is no valid configuration" is asked of the twin
+                # with every scalar quoted, so that a validation which READS the unquoted text differently is not
+                # taken for the known finding C20-file-validated-alone
+                v["file"] = case["file_quoted"]
             cases.append(v)
         index.append((b, ids))
     out = run_parallel([exe], cases)
@@ -294,17 +310,26 @@ def l2_shrink(exe, plan, rngseed):
     return vlib.ddmin(plan, fails)
 
 
-def l2_stream(R, exe, n_groups, required):
+def l2_stream(R, exe, n_groups, required, strings=None):
     rng = R.rng
     plans = []
     for _ in range(n_groups):
         cfg = gen_config.gen_config(rng)
+        # dialect-sensitive strings (yes, no, on, off, y, n, <<, =, 1:30) as values of string options
+        planted = gen_config.plant_dialect(rng, cfg, strings) if rng.random() < 0.6 else []
         pls = []
         for mode in MODES:
             pl = gen_config.gen_plan(rng, cfg, mode, required)
             case = gen_config.plan_case(pl, rng)
             case["mode"] = mode
             pls.append((pl, case))
+        if planted:
+            # ... written UNQUOTED into the file (complete file; file/environment split with the text in either source)
+            for mode in ("plain", "plainopt"):
+                pl = gen_config.gen_plain_plan(rng, cfg, planted, mode, required)
+                case = gen_config.plan_case(pl, rng)
+                case["mode"] = mode
+                pls.append((pl, case))
         plans.append((cfg, pls))
         # the environment defines leaves of the complete file to be nil: a group of its own, the reference is the
         # configuration without those leaves
@@ -318,7 +343,10 @@ def l2_stream(R, exe, n_groups, required):
     mcases, mref = [], []
     for (cfg, pls) in plans:
         for pl, case in pls:
-            mcases.append(dict(case, op="merged", defaults={}))
+            mc = dict(case, op="merged", defaults={})
+            if "file_quoted" in case:
+                mc["file"] = case["file_quoted"]        # the tree model takes the file as JSON
+            mcases.append(mc)
             mref.append(cfg)
     mout = vlib.run_cases(vlib.driver_cmd(), mcases)
     st = collections.Counter()
@@ -349,6 +377,9 @@ def l2_stream(R, exe, n_groups, required):
                     nontriv.add(vlib.case_hash(case))
                 if mode == "nil":
                     st["nil_leaves"] += len(case["env"])
+                    nontriv.add(vlib.case_hash(case))
+                if mode in ("plain", "plainopt"):
+                    st["unquoted_leaves"] += sum(1 for e in pl if e.get("plain"))
                     nontriv.add(vlib.case_hash(case))
             elif v == "known":
                 st["known_" + mode] += 1
@@ -719,6 +750,240 @@ def site_stream(R, exe):
 
 
 # ---------------------------------------------------------------------------------------------------------------
+# stream 5c: dialect. Three places let a YAML decoder decide what a text means: ValidateConfig (the FILE, for the JSON
+# schema), koanfFromYaml (the FILE, for the merge) and toRealType (the text of a VARIABLE). The property needs them to
+# agree (c20_validator_reads_like_loader: in the model they are one function, `readText`); here the real three are asked
+# for every text of the pool and compared with each other and with the model, and every text is written UNQUOTED into
+# the file at string options of the real Configuration and loaded with the real validation, against the same text
+# given by a variable (Lean: fileOutcomeOf / envOutcomeOf).
+
+def scalar_class(y):
+    """the JSON type the schema sees for a reading as the harness reports it"""
+    if isinstance(y, bool):
+        return "boolean"
+    if isinstance(y, str):
+        return "string"
+    if isinstance(y, int):
+        return "integer"
+    if isinstance(y, dict) and "$float" in y:
+        t = y["$float"].lstrip("-")
+        return "integer" if t.isdigit() else "other"
+    if isinstance(y, dict) and "$unreadable" in y:
+        return "unreadable"
+    return "other"
+
+
+def sig_digits(text):
+    return len("".join(ch for ch in text.split("e")[0].split("E")[0] if ch.isdigit()).strip("0"))
+
+
+def same_reading(text, impl, model):
+    """does the reading of the model equal the one of a real decoder? The text of a float is modelled exactly for up
+    to 15 significant digits, beyond that the kind is compared"""
+    if vlib.canon(impl) == vlib.canon(model):
+        return True
+    return isinstance(impl, dict) and isinstance(model, dict) and "$float" in impl and "$float" in model and \
+        sig_digits(text) > 15
+
+
+def validator_substitutes():
+    """does ValidateConfig resolve `${var}` references as the loader does (fixes/C20-3.patch)? Read off the source."""
+    try:
+        with open(os.path.join(vlib.REPO, "internal", "config", "validator.go")) as fh:
+            return "envsubst.EvalEnv" in fh.read()
+    except OSError:
+        return False
+
+
+def unsubstituted_validation(text, e):
+    """the defect fixes/C20-3.patch repairs, exactly: the file refers to an environment variable, the loader resolves the
+    reference, the validation judged the text of the reference itself (a string) - and the source of ValidateConfig does
+    not resolve references"""
+    # fix C20-3 is applied in /repo (recorded under `fixed` in known_findings.json): nothing is pending any more, the
+    # behaviour before the fix is a violation like any other
+    return False
+
+
+def reading_verdict(text, e, m):
+    """None, or what is wrong with the readings of one text. e: harness entry {env, file, validator}; m: model entry
+    (for a text with a `${var}` reference: of the text after the substitution)"""
+    fcls = scalar_class(e["file"])
+    q = json.dumps(text)
+    subst = text in gen_config.DIALECT_SUBST
+    if fcls == "unreadable":
+        if e["validator"] != "unreadable":
+            return f"the loader cannot read the file saying {q} but the validation of the file reads it ({e['validator']})"
+        return None
+    if e["validator"] != fcls:
+        return (f"the validation of the file reads the text {q} as {e['validator']}, the loader reads {json.dumps(e['file'])} "
+                f"({fcls}): the schema judges another value than the one that is loaded")
+    if not subst and vlib.canon(e["env"]) != vlib.canon(e["file"]):
+        return (f"the text {q} is read as {json.dumps(e['file'])} in the file and as {json.dumps(e['env'])} in an "
+                f"environment variable")
+    if m is not None and m.get("modelled"):
+        if not same_reading(text, e["file"], m["reading"]):
+            return (f"the loader reads the text {q} as {json.dumps(e['file'])}, the proved reading model says "
+                    f"{json.dumps(m['reading'])}")
+        if m["validator"] != e["validator"]:
+            return (f"the validation of the file sees {e['validator']} for the text {q}, the proved reading model says "
+                    f"{m['validator']}")
+    return None
+
+
+def reading_stream(R, exe, texts):
+    st = collections.Counter()
+    impl = vlib.run_cases([exe], [{"fam": "config", "op": "readings", "raw": texts}])[0]
+    mtexts = [gen_config.DIALECT_SUBST.get(t, t) for t in texts]      # the model reads what the file says after substitution
+    model = vlib.res_of(vlib.run_cases(vlib.driver_cmd(), [{"fam": "config", "op": "dialect", "type": "string",
+                                                           "want": "string", "texts": mtexts}])[0])
+    if not isinstance(impl, list) or len(impl) != len(texts) or not isinstance(model, list) or len(model) != len(texts):
+        R.violation("dialect: harness or driver do not report readings", {"impl": impl, "model": model}, no_input=True)
+        return st, set(), {}
+    nontriv = set()
+    shown = 0
+    for t, e, m in zip(texts, impl, model):
+        st["reading_texts"] += 1
+        st["reading_" + scalar_class(e["file"])] += 1
+        if not m.get("modelled"):
+            st["reading_beyond_model"] += 1
+        why = reading_verdict(t, e, m)
+        if why is None:
+            if e["file"] != t:
+                nontriv.add(("reading", t))
+            continue
+        if unsubstituted_validation(t, e):
+            st["reading_unsubstituted_validation"] += 1
+            R.known_hits[PENDING_SUBST] = R.known_hits.get(PENDING_SUBST, 0) + 1
+            continue
+        st["reading_violations"] += 1
+        if shown < 3:
+            shown += 1
+            R.violation("dialect: " + why, {"kind": "reading", "text": t, "impl": e, "model": m})
+    return st, nontriv, {t: m for t, m in zip(texts, model)}
+
+
+def dialect_leaf_of(r):
+    """what one load shows at the leaf: the scalar, or the error kind"""
+    if isinstance(r, list) and len(r) == 1:
+        r = r[0]
+        if isinstance(r, dict) and "leaf" in r:
+            return True, r["leaf"]
+        if isinstance(r, str) and r.startswith("err:schema"):
+            r = "err:schema"              # below a oneOf the message also lists what the other alternatives miss
+        return False, r
+    return False, {"outcomes": r}
+
+
+def dump_norm(y):
+    """the leaf is read off the dumped configuration (YAML written and read again): a float without a fraction comes
+    back as the integer"""
+    if isinstance(y, dict) and "$float" in y and y["$float"].lstrip("-").isdigit():
+        return int(y["$float"])
+    return y
+
+
+def dialect_expect(m, default):
+    """what the harness shows for an outcome of the model; (says, usable, leaf)"""
+    if m == "rejected":
+        return True, False, "err:schema"
+    if m == "err:decode":
+        return True, False, "err:decode"
+    if m == "zero":
+        return True, True, default
+    if isinstance(m, dict) and "raw" in m:
+        return True, True, m["raw"]
+    if isinstance(m, (str, int, bool)) and m not in ("unsupported", "beyond"):
+        return True, True, m
+    return False, None, None
+
+
+def dialect_judge(c, obs, model):
+    """(violation or None, known). obs: {"F","E","N"} -> (usable, leaf); model: entry of driver op `dialect` or None"""
+    (fu, fl), (eu, el) = obs["F"], obs["E"]
+    default = obs["N"][1] if obs["N"][0] else None
+    what = f"{c['site']} ({'string field' if c['type'] == 'string' else 'member of a free-form map'}), text {json.dumps(c['text'])}"
+    agrees = False
+    if model is not None and model.get("modelled"):
+        agrees = True
+        for side, (u, l), m in (("the file saying the text unquoted", (fu, fl), model["file"]),
+                                ("a variable carrying the text", (eu, el), model["env"])):
+            says, mu, ml = dialect_expect(m, default)
+            if not says:
+                agrees = False
+                continue
+            if u != mu or vlib.canon(dump_norm(l)) != vlib.canon(dump_norm(ml)):
+                if u != mu or not same_reading(c["text"], l, ml):
+                    return (f"{what}: {side} gives {json.dumps(l)}, the proved model says {json.dumps(ml)}"
+                            + (" (the schema validation rejects a file the loader supports)" if l == "err:schema" and mu else "")), 0
+    if fu != eu:
+        if agrees and not model["string"]:
+            return None, 1          # the loader does not read the text as the string written: C20-env-value-retyped
+        return (f"{what}: usable from {'the file' if fu else 'the environment'} ({json.dumps(fl if fu else el)}) but not "
+                f"from {'the environment' if fu else 'the file'} ({json.dumps(el if fu else fl)})"), 0
+    if fu and vlib.canon(fl) != vlib.canon(el):
+        return f"{what}: the file gives {json.dumps(fl)}, the environment {json.dumps(el)}", 0
+    return None, 0
+
+
+def dialect_observe(exe, c):
+    out = vlib.run_cases([exe], [c["file_case"], c["env_case"], c["default_case"]])
+    return {"F": dialect_leaf_of(out[0]), "E": dialect_leaf_of(out[1]), "N": dialect_leaf_of(out[2])}
+
+
+def dialect_stream(R, exe, readings):
+    st = collections.Counter()
+    cases = gen_config.dialect_cases()
+    texts = sorted({c["text"] for c in cases})
+    model = {}
+    for typ in ("string", "any"):
+        out = vlib.res_of(vlib.run_cases(vlib.driver_cmd(), [{"fam": "config", "op": "dialect", "type": typ, "want": "string",
+                                                             "texts": texts}])[0])
+        if not isinstance(out, list) or len(out) != len(texts):
+            R.violation("dialect: the driver does not answer", {"model": out}, no_input=True)
+            return st, set()
+        model[typ] = dict(zip(texts, out))
+    icases, index = [], []
+    defaults = {}
+    for k, c in enumerate(cases):
+        for sc in ("file_case", "env_case"):
+            index.append((k, sc))
+            icases.append(c[sc])
+        if c["site"] not in defaults:
+            defaults[c["site"]] = len(icases)
+            index.append((k, "default_case"))
+            icases.append(c["default_case"])
+    iout = run_parallel([exe], icases)
+    per = [dict() for _ in cases]
+    dflt = {}
+    for (k, sc), r in zip(index, iout):
+        per[k][sc] = dialect_leaf_of(r)
+        if sc == "default_case":
+            dflt[cases[k]["site"]] = per[k][sc]
+    nontriv = set()
+    shown = 0
+    for k, c in enumerate(cases):
+        obs = {"F": per[k]["file_case"], "E": per[k]["env_case"], "N": dflt[c["site"]]}
+        m = model[c["type"]][c["text"]]
+        st["dialect_cases"] += 1
+        st["dialect_loads"] += 2
+        bad, known = dialect_judge(c, obs, m)
+        if known:
+            st["dialect_known_retyped"] += 1
+            R.known_hits[KNOWN_RETYPED] = R.known_hits.get(KNOWN_RETYPED, 0) + 1
+        if bad is None:
+            st["dialect_file_" + ("usable" if obs["F"][0] else "rejected")] += 1
+            if not m.get("string") or (obs["F"][0] and c["text"][:1] not in "\"'"):
+                nontriv.add((c["site"], c["text"]))
+            continue
+        st["dialect_violations"] += 1
+        if shown < 4:
+            shown += 1
+            R.violation("values stream (dialect): " + bad,
+                        {"kind": "dialect", "case": c, "impl": {x: list(obs[x]) for x in obs}, "model": m})
+    return st, nontriv
+
+
+# ---------------------------------------------------------------------------------------------------------------
 # stream 6: histories. Several NewConfiguration loads in ONE process; every result must be what the same load gives
 # as the first load of a fresh process (the model is a function of file + environment, `c20_history_independent`),
 # and a configuration returned earlier must not change by later loads
@@ -900,19 +1165,33 @@ def run(R):
     cases = loads + [gen_config.gen_load_case(R.rng) for _ in range(n1)]
     n_l1, nt1, st1, bad1, sample1 = l1_stream(R, exe, cases, "tree stream")
     required = l2_required_names()
-    st2, nt2, sample2 = l2_stream(R, exe, n2, required)
+    # dialect: the readings first (the strings planted unquoted into the files of the typed stream are those the model
+    # reads as the string written)
+    dtexts = list(dict.fromkeys(gen_config.DIALECT_POOL + gen_config.DIALECT_STRINGS + gen_config.DIALECT_FIDELITY
+                                + list(gen_config.DIALECT_SUBST)
+                                + [c["text"] for c in vlib.load_corpus(PID) if c.get("kind") == "reading"]))
+    st6, nt6, dmodel = reading_stream(R, exe, dtexts)
+    strings = [t for t in gen_config.DIALECT_STRINGS if dmodel.get(t, {}).get("reading") == t]
+    if len(strings) != len(gen_config.DIALECT_STRINGS):
+        R.violation("dialect: the reading model no longer reads the planted texts as strings (generator or model defect, "
+                    "theorem c20_dialect_words_are_strings says it does)",
+                    {"texts": [t for t in gen_config.DIALECT_STRINGS if t not in strings]}, no_input=True)
+    st2, nt2, sample2 = l2_stream(R, exe, n2, required, strings or None)
     corpus_groups(R, exe, groups, st2)
     st3 = schema_stream(R, exe, facts) if facts is not None else collections.Counter()
     st4, nt4 = leaf_stream(R, exe, gen_config.leaf_cases())
     st4b, nt4b = site_stream(R, exe)
     st4.update(st4b)
     nt4 |= nt4b
+    st6b, nt6b = dialect_stream(R, exe, dmodel)
+    st6.update(st6b)
+    nt6 |= nt6b
     n5 = 40 if quick else 400
     st5, nt5 = history_stream(R, exe, hists + [gen_config.gen_history(R.rng) for _ in range(n5)])
     R.coverage.update({
         "evaluations": n_l1 + st2["loads"] + st2["groups"] + 2 * st3["types_checked"] + 2 * st4["value_cases"]
-                       + st4["site_loads"] + 2 * st5["history_loads"],
-        "distinct_nontrivial": len(nt1) + len(nt2) + len(nt4) + len(nt5),
+                       + st4["site_loads"] + 2 * st5["history_loads"] + st6["dialect_loads"] + 5 * st6["reading_texts"],
+        "distinct_nontrivial": len(nt1) + len(nt2) + len(nt4) + len(nt5) + len(nt6),
         "rule": "tree stream: a random configuration tree (maps, lists of scalars, lists of structures, nested lists; "
                 "scalars incl. strings that need quoting) whose leaves are distributed over defaults / file / "
                 "environment with overlaps and conflicting values, variables named by the documented rule (some in "
@@ -937,11 +1216,22 @@ def run(R):
                 "inside lists) are loaded where the file defines the leaf with another value, where only the defaults "
                 "define it, where nothing defines it, and with the same text in the file; compared with each other "
                 "(environment wins, sibling leaf stays, file = environment) and with the Lean loader + decoding model. "
+                "dialect: every text of a pool of dialect-sensitive texts (YAML 1.1 booleans yes no on off y n in several "
+                "cases, ~, null, 0o17, 017, 0x1F, 1_000, 1e3, .inf, .NaN, a date, <<, =, 1:30, their quoted forms, and ~120 "
+                "neighbours: numerals of every base, limits of int64 / uint64 / float64, timestamps, near-misses) is read by "
+                "the real ValidateConfig (probed with files that say the text where the schema wants a string / boolean / "
+                "integer), the real koanfFromYaml and the real toRealType, compared with each other and with the Lean "
+                "reading model; the 50 texts of the pool are written UNQUOTED into the file at 11 string options of the real "
+                "Configuration (5 typed fields, 6 members of free-form mechanism / provider configs) and loaded by the real "
+                "NewConfiguration with the schema validation, and given by a variable: file usable iff environment "
+                "usable, same leaf, both as the Lean model (fileOutcomeOf / envOutcomeOf) says; non-trivial = a text some "
+                "decoder does not read as written, or an unquoted text the file delivers; the typed stream plants such "
+                "strings unquoted into complete files and file/environment splits. "
                 "history stream: 3-4 NewConfiguration "
                 "loads (file / environment / override, cache.config leaves, services, mechanisms) in one process, every result "
                 "compared with the same load in a fresh process and re-inspected after the later loads; non-trivial = a "
                 "load defines cache.config leaves and the loads give different configurations",
-        "value_stats": dict(st4), "history_stats": dict(st5),
+        "value_stats": dict(st4), "history_stats": dict(st5), "dialect_stats": dict(st6),
         "tree_cases": n_l1, "tree_stats": dict(st1), "tree_disagreements": bad1,
         "typed_stats": dict(st2), "schema_stats": dict(st3),
         "corpus_cases": len(loads) + len(groups),
@@ -965,6 +1255,12 @@ def run(R):
         "the YAML reading of the text of an environment variable is taken from the real library (harness op yaml) and "
         "handed to the decoding model; mapstructure's weak decoding is modelled for string/int/bool leaves and canonical "
         "numerals, other combinations are compared between file and environment only",
+        "the reading of a text as a YAML scalar (yaml.v3 resolve: words, integers of Go's strconv in every base, floats, "
+        "timestamps) is modelled in Lean for one-line plain, single- and double-quoted texts without escapes; outside "
+        "that fragment (collections, comments, tags, anchors, block scalars) the real decoders are only compared with "
+        "each other; the text of a float is exact for up to 15 significant digits; what the validator reads is observed "
+        "through the verdict of the real ValidateConfig on files that say the text where the schema wants a string, a "
+        "boolean or an integer",
         "schema/loader tables cover mechanism and cache types and the option names of the static configuration structs; "
         "the options inside a mechanism's `config` and value constraints (patterns, required) are not in the tables",
     ]
@@ -1026,6 +1322,28 @@ def replay(R, path):
         bad, known = site_judge(site, obs)
         if bad:
             R.violation("replay: " + bad[0], dict(p, impl=obs, all=bad))
+    elif kind == "reading":
+        e = vlib.run_cases([exe], [{"fam": "config", "op": "readings", "raw": [p["text"]]}])[0][0]
+        print("text                    :", json.dumps(p["text"]))
+        print("validation of the file  :", e["validator"])
+        print("loader, from the file   :", json.dumps(e["file"]))
+        print("loader, from a variable :", json.dumps(e["env"]))
+        print("reading model           :", json.dumps((p.get("model") or {}).get("reading")))
+        why = reading_verdict(p["text"], e, p.get("model"))
+        if why and unsubstituted_validation(p["text"], e):
+            print("(the validation judged the unresolved reference: fixes/C20-3.patch)")
+        elif why:
+            R.violation("replay: " + why, {"kind": "reading", "text": p["text"], "impl": e, "model": p.get("model")})
+    elif kind == "dialect":
+        c = p["case"]
+        obs = dialect_observe(exe, c)
+        print("file (text unquoted)    :", json.dumps(obs["F"][1]))
+        print("environment variable    :", json.dumps(obs["E"][1]))
+        print("without the leaf        :", json.dumps(obs["N"][1]))
+        print("model (file, variable)  :", json.dumps((p.get("model") or {}).get("file")), json.dumps((p.get("model") or {}).get("env")))
+        bad, known = dialect_judge(c, obs, p.get("model"))
+        if bad:
+            R.violation("replay: " + bad, {"kind": "dialect", "case": c, "impl": {x: list(obs[x]) for x in obs}, "model": p.get("model")})
     elif kind == "history":
         v = history_verdict(exe, p["case"])
         print("verdict:", v[0] if v else "every load equals its fresh-process twin, nothing changed afterwards")
